@@ -126,7 +126,8 @@ func runShard(self, id, tier string, shard, of int, dir string, budget time.Dura
 		if budget > 0 {
 			args = append(args, "--budget", budget.String())
 		}
-		cmd := exec.Command(self, args...)
+		// address-space limit: an allocation blow-up kills this worker, not the sandbox
+		cmd := exec.Command("bash", append([]string{"-c", `ulimit -v 8388608; exec "$0" "$@"`, self}, args...)...)
 		var stderr bytes.Buffer
 		cmd.Stderr = &stderr
 		cmd.Stdout = &stderr
@@ -209,6 +210,11 @@ func cmdCheck(args []string) int {
 	os.MkdirAll(dir, 0o755)
 	os.MkdirAll(filepath.Join(vd, "evidence"), 0o755)
 	os.MkdirAll(filepath.Join(vd, "replays"), 0o755)
+	if old, _ := filepath.Glob(filepath.Join(vd, "replays", id+"-*.json")); len(old) > 0 {
+		for _, f := range old {
+			os.Remove(f)
+		}
+	}
 
 	n := runtime.NumCPU()
 	if p.Shards != nil {
@@ -290,6 +296,10 @@ func cmdCheck(args []string) int {
 				break
 			}
 		}
+		if strings.HasPrefix(v.Clause, "ENGINE-") {
+			engineErrs = append(engineErrs, fmt.Sprintf("%s %s: %s", v.Clause, v.Input, v.Detail))
+			continue
+		}
 		if !matched {
 			fresh = append(fresh, v)
 		}
@@ -305,7 +315,7 @@ func cmdCheck(args []string) int {
 		}
 		path := filepath.Join(vd, "replays", fmt.Sprintf("%s-%s.json", id, core.HashOf(v.SigKey()+v.Input)))
 		core.WriteJSON(path, v)
-		if p.Replay != nil && v.Clause != "process-abort" && v.Clause != "hang" {
+		if _, aborted := v.Sig["abort"]; p.Replay != nil && !aborted {
 			cmd := exec.Command(self, "replay", path, "--n", "5", "--quiet")
 			outb, err := cmd.CombinedOutput()
 			if err != nil && !strings.Contains(string(outb), "REPRODUCED") {
@@ -317,7 +327,7 @@ func cmdCheck(args []string) int {
 		paths = append(paths, path)
 	}
 
-	exhaustive := len(total.Caps) == 0 && !partial && len(engineErrs) == 0
+	exhaustive := len(total.Caps) == 0 && len(engineErrs) == 0
 	cov := map[string]any{
 		"evaluations":                   total.Evaluations,
 		"distinct_nontrivial":           total.Nontrivial,
@@ -333,6 +343,7 @@ func cmdCheck(args []string) int {
 		"notes":                         total.Notes,
 		"known_finding_hits":            kfHits,
 		"shards":                        n,
+		"worker_died_and_was_resumed":   partial,
 		"distinct_violation_signatures": len(order),
 	}
 	if p.Bounds != nil {
